@@ -228,6 +228,96 @@ Fixpoint h2_replay (m : nat) (s : h2state) (steps : list (h2op * h2obs)) : bool 
       h2obs_match s' ob && h2snap_ok (h2snap_of s' [0]) && h2_replay m s' rest
   end.
 
+(* ---------- (round 5) a dial shared by several forced-HTTP/2 requests ---------- *)
+
+Definition is_open (s : h2state) (r : rid) : bool :=
+  match r_phase s r with ROpen _ _ => true | _ => false end.
+
+(* request 0 starts the dial, requests 1..nw join it while it is pending; the dial ends with [e]
+   (DErrNone: succeeds; DErrCanceled / DErrDeadline: the owner's context ended; DErrOther: the
+   dial failed for a reason of its own).  Result: dials started, owner served, waiters served. *)
+Definition share_dial_model (e : dial_err) (nw : nat) : nat * bool * list bool :=
+  let s0 := fold_left h2_step (repeat (H2Get 0) (S nw)) h2_init in
+  let s :=
+    match e with
+    | DErrNone => h2_settle 250 200 s0
+    | _ =>
+        let s1 := h2_step s0 (H2DialDone 0 false) in
+        let s2 := h2_step s1 (H2Wake 0 (should_retry_dial true e true)) in
+        let owner_done := match e with DErrOther => false | _ => true end in
+        let s3 := fold_left (fun s r => h2_step s (H2Wake r (should_retry_dial false e owner_done))) (seq 1 nw) s2 in
+        h2_settle 250 200 s3
+    end in
+  (n_call s, is_open s 0, map (is_open s) (seq 1 nw)).
+
+Definition share_dial_ok (e : dial_err) (nw dials : nat) (owner_ok : bool) (waiters_ok : list bool) : bool :=
+  let '(d, o, ws) := share_dial_model e nw in
+  Nat.eqb d dials && Bool.eqb o owner_ok && list_eqb Bool.eqb ws waiters_ok.
+
+(* ---------- (round 5) deterministic HTTP/3 cache scenarios (one authority) ---------- *)
+
+Inductive h3op :=
+| P3Start                  (* a request enters RoundTripOpt: getClient *)
+| P3Cancel (q : nat)       (* the context of a request that waits for the pending dial ends (not the one that started the dial) *)
+| P3CancelOwner (q : nat)  (* the context of the request that started the pending dial ends: the dial fails with it *)
+| P3DialDone               (* the pending QUIC dial of the cached client completes *)
+| P3Finish (q : nat)       (* the origin answers request q *)
+| P3CloseIdle.
+
+(* waiters whose dial has ended go on (dial error of another request's context: dial again) *)
+Definition h3_runnable (s : h3state) : option h3event :=
+  match find_lt (fun q => match q_phase s q with
+                          | Q3Wait cl => match cl_dial s cl with DialRunning => false | _ => true end
+                          | _ => false
+                          end) (n_q s) with
+  | Some q => Some (E3Proceed q true)
+  | None =>
+  match find_lt (fun q => match q_phase s q with Q3Again _ => true | _ => false end) (n_q s) with
+  | Some q => Some (E3Reget q)
+  | None => None
+  end end.
+
+Fixpoint h3_settle (fuel : nat) (s : h3state) : h3state :=
+  match fuel with
+  | 0 => s
+  | S f => match h3_runnable s with
+           | None => s
+           | Some e => h3_settle f (h3_step s e)
+           end
+  end.
+
+Definition h3_apply (s : h3state) (o : h3op) : h3state :=
+  h3_settle 32
+    (match o with
+     | P3Start => h3_step s (E3Get 0)
+     | P3Cancel q => h3_step s (E3Abandon q)
+     | P3CancelOwner q =>
+         match q_phase s q with
+         | Q3Wait cl => h3_step (h3_step s (E3Abandon q)) (E3DialDone cl false)
+         | _ => s
+         end
+     | P3DialDone => match clients s 0 with
+                     | Some cl => h3_step s (E3DialDone cl true)
+                     | None => s
+                     end
+     | P3Finish q => h3_step s (E3Finish q true false)
+     | P3CloseIdle => h3_step s E3CloseIdle
+     end).
+
+(* observed after an operation: is a client cached for the authority, and its useCount *)
+Definition h3obs := (bool * Z)%type.
+
+Fixpoint h3_replay (s : h3state) (steps : list (h3op * h3obs)) : bool :=
+  match steps with
+  | [] => true
+  | (o, (present, use)) :: rest =>
+      let s' := h3_apply s o in
+      match clients s' 0 with
+      | Some cl => present && (cl_use s' cl =? use)%Z && h3_replay s' rest
+      | None => negb present && h3_replay s' rest
+      end
+  end.
+
 Inductive c09_case :=
 | SnapCase (cfg : config) (sn : snapshot)
 | ReplayCase (cfg : config) (ks dial_fail : list key) (steps : list (op * observed))
@@ -237,7 +327,10 @@ Inductive c09_case :=
 | H3SnapCase (inflight_upper : nat) (uses : list Z)
 | ExpectCase (sent100 resp_close : bool) (announced received : nat) (reused : bool)
 | H2HdrCase (limit : nat) (obs : list hdr_obs)
-| AsyncDumpCase (chunks : list bytes) (dumped : bytes).
+| AsyncDumpCase (chunks : list bytes) (dumped : bytes)
+| ProxyCase (a b : cmethod) (same_conn : bool)
+| ShareDialCase (e : dial_err) (waiters dials : nat) (owner_ok : bool) (waiters_ok : list bool)
+| H3ReplayCase (steps : list (h3op * h3obs)).
 
 Definition c09_check (c : c09_case) : bool :=
   match c with
@@ -251,4 +344,7 @@ Definition c09_check (c : c09_case) : bool :=
   | ExpectCase s100 rc ann rcv reused => expect_case_ok s100 rc ann rcv reused
   | H2HdrCase limit obs => hdr_replay limit hconn_init 0 obs
   | AsyncDumpCase chunks dumped => async_dump_ok chunks dumped
+  | ProxyCase a b same => proxy_case_ok a b same
+  | ShareDialCase e nw d o ws => share_dial_ok e nw d o ws
+  | H3ReplayCase steps => h3_replay h3_init steps
   end.
